@@ -7,7 +7,8 @@ coq/theories/Model/Sys.v (same semantics, see DESIGN.md Appendix A):
   interval, then advances the clock.  A handler that sleeps re-enters sleep().
 * the server keeps the true strokes; a c_bell_rung whose claimed stroke matches toggles the bell and
   is broadcast as s_bell_rung `delta` later; c_call is echoed as s_call `delta` later; a human pull
-  ("ring") toggles and is broadcast at once.
+  ("ring") toggles and is broadcast `delta` later as well (one ordered connection: the bell-state
+  snapshots reach Wheatley in the order in which the server took them).
 * exceptions escaping a message handler are caught and logged (python-socketio/engineio do the
   same); an exception escaping the main loop ends the run as a crash.
 """
@@ -119,7 +120,9 @@ class Sim:
             bell = ev[1]
             if 1 <= bell <= len(self.server):
                 self.server[bell - 1] = not self.server[bell - 1]
-                self.push(self.now, ("msg", "s_bell_rung", {"global_bell_state": list(self.server), "who_rang": bell}))
+                # (same latency as the echo of Wheatley's own strikes: one connection delivers in order, so a
+                # snapshot of the bell states taken earlier can never overtake one taken later)
+                self.push(self.now + self.delta, ("msg", "s_bell_rung", {"global_bell_state": list(self.server), "who_rang": bell}))
             return
         if kind == "size":
             self.server = [True] * ev[1]
